@@ -153,32 +153,7 @@ func runC02(w *World, r *Report) {
 	})
 	// (d) reset on fire
 	ruleClearOnRead(w, r, "C02.ready-guards")
-	// reportSkip marks data predecessors of a skipped source as satisfied and sets Skipped only when all control predecessors are skipped
-	{
-		rs := methodOf(w, dagT, "reportSkip")
-		skippedConst := constValOf(w, "compose", "dependencyStateSkipped")
-		var stSk *ssa.Store
-		for _, fw := range fieldWrites(rs) {
-			if sameField(fw.field, fSkipped) {
-				stSk = fw.in.(*ssa.Store)
-			}
-		}
-		good := stSk != nil
-		if good {
-			// the stored value is a phi(true, false) where false comes from an arm guarded by state != skipped
-			foundCmp := false
-			instrs(rs, func(in ssa.Instruction) {
-				if iff, ok := in.(*ssa.If); ok {
-					op, _, y, ok := asCmp(iff.Cond)
-					if ok && isConstN(y, skippedConst) && (op == token.NEQ || op == token.EQL) {
-						foundCmp = true
-					}
-				}
-			})
-			good = foundCmp
-		}
-		r.Check(good, "C02.ready-guards", "dagChannel.reportSkip: skipped iff all control predecessors skipped", rs.Pos(), "Skipped computed from a scan comparing every state with dependencyStateSkipped", "skip condition changed")
-	}
+	reportSkipExact(w, r, "C02.ready-guards")
 
 	// ---- cycle gate
 	// ---- what a data predecessor reports is kept: the store into Values is reached for every reported key that is a
@@ -560,4 +535,36 @@ func skipFlagOf(w *World) *types.Var {
 		undecidedf("dagChannel has no bool field (skip flag)")
 	}
 	return f
+}
+
+// reportSkipExact: a DAG channel is skipped iff ALL its control predecessors are skipped — decided by comparing every
+// state with dependencyStateSkipped, not by "nobody is waiting any more" (a predecessor that already completed is not
+// skipped; whether its report or the skip arrives first must not matter). Shared by C02 and C03.
+func reportSkipExact(w *World, r *Report, rule string) {
+	dagT := w.Named("compose", "dagChannel")
+	fSkipped := skipFlagOf(w)
+
+	rs := methodOf(w, dagT, "reportSkip")
+	skippedConst := constValOf(w, "compose", "dependencyStateSkipped")
+	var stSk *ssa.Store
+	for _, fw := range fieldWrites(rs) {
+		if sameField(fw.field, fSkipped) {
+			stSk = fw.in.(*ssa.Store)
+		}
+	}
+	good := stSk != nil
+	if good {
+		// the stored value is a phi(true, false) where false comes from an arm guarded by state != skipped
+		foundCmp := false
+		instrs(rs, func(in ssa.Instruction) {
+			if iff, ok := in.(*ssa.If); ok {
+				op, _, y, ok := asCmp(iff.Cond)
+				if ok && isConstN(y, skippedConst) && (op == token.NEQ || op == token.EQL) {
+					foundCmp = true
+				}
+			}
+		})
+		good = foundCmp
+	}
+	r.Check(good, rule, "dagChannel.reportSkip: skipped iff all control predecessors skipped", rs.Pos(), "Skipped computed from a scan comparing every state with dependencyStateSkipped", "skip condition changed")
 }
